@@ -446,7 +446,23 @@ func c03Build(x *c03Run, nA int, fullLeaves map[int]bool, rep *Report) {
 		c03Direct(rep, x.sc.Case.ID, A, i, r)
 	}
 	// the other output of the same bridge and the other bridge's own tree are claimable too
-	x.do(sc.op(claim(A2, r.Intn(len(A2.Tree.Ws)))), "valid", "leaf of output 2")
+	// output 2 is the NEWEST finalized output of bridge 1 while output 3 is pending: a claim valid
+	// against it, resubmitted under any other output index, must fail
+	v2 := claim(A2, r.Intn(len(A2.Tree.Ws)))
+	idxPerts := func() {
+		for _, ip := range []struct {
+			desc string
+			idx  uint64
+		}{{"output index N+1 (pending, other root)", 3}, {"output index N+2 (never proposed)", 4}, {"output index 7 (never proposed)", 7},
+			{"output index 0", 0}, {"output index 2^64-1", ^uint64(0)}, {"lower finalized output index (other root)", 1}} {
+			o := cloneOp(v2)
+			o.Idx = ip.idx
+			doPert(c03Pert{"newest finalized output's claim under " + ip.desc, o}, v2)
+		}
+	}
+	idxPerts()
+	x.do(sc.op(v2), "valid", "leaf of output 2")
+	idxPerts()
 	x.do(sc.op(claim(B, r.Intn(len(B.Tree.Ws)))), "valid", "leaf of bridge 2 output 2")
 	// an output that is not final yet
 	vc := claim(C, 0)
